@@ -33,7 +33,7 @@ VERIFICATION_MSGS = (
     "postcondition not satisfied", "precondition not satisfied", "assertion failed",
     "invariant not satisfied", "loop invariant", "possible arithmetic", "possible division by zero",
     "possible bit shift", "decreases not satisfied", "termination", "unreachable", "recommendation not met",
-    "could not prove", "possible", "failed",
+    "could not prove", "unable to prove", "possible", "failed",
 )
 UNDECIDED_MSGS = ("Resource limit (rlimit) exceeded", "rlimit", "timed out", "timeout")
 
